@@ -5,6 +5,7 @@ repository of a rose tree of CAs (`Sys/Tree.lean`), for any depth and branching.
 No property statements here.
 -/
 import KrillModel.Sys.Tree
+import KrillModel.Sys.RpShared
 import KrillModel.Ca.PubBaseLemmas
 namespace KM.Sys.Rp
 open KM.Ca.Pub
@@ -239,6 +240,19 @@ theorem treeValid_false_aux (cat : Catalog) (now : Nat) (t : Node) (hd : t.subje
         rw [List.all_eq_false]
         exact ⟨ch.ca, hfound n hn ch hch', by rw [h1]; simp⟩
       rw [this, Bool.and_false]
+
+/-! ### Shared publication points (`Sys/RpShared.lean`) -/
+
+/-- A directory with one manifest: the certificate sees the directory's files as they are. -/
+theorem filesFor_nil (cat : Catalog) (dir : Files) (c : Cert) : filesFor cat dir c [] = dir := by
+  simp [filesFor]
+
+/-- Whatever the siblings, a certificate keeps its own manifest and everything that manifest lists
+by name, and never sees a file the directory does not hold. -/
+theorem mem_filesFor {cat : Catalog} {dir : Files} {c : Cert} {siblings : List Cert} {f : Nat × Nat} :
+    f ∈ filesFor cat dir c siblings ↔
+      f ∈ dir ∧ (f.1 ∈ claimedNames cat dir c ∨ f.1 ∉ siblings.flatMap (claimedNames cat dir)) := by
+  simp [filesFor, List.mem_filter]
 
 /-! ### A concrete hierarchy (non-vacuity of the statements in `Props/C01.lean`)
 
